@@ -9,6 +9,7 @@
 
 #include "common/agg.hpp"
 #include "model/world.hpp"
+#include <djinterop/engine/v2/engine_library.hpp>
 
 namespace
 {
@@ -76,6 +77,38 @@ LoadResult try_load(const std::string& dir)
     return r;
 }
 
+// the second public loader: the schema-2.x library object, which opens <dir>/Database2/m.db directly (no layout probe first)
+LoadResult try_load_v2(const std::string& dir)
+{
+    LoadResult r;
+    try
+    {
+        auto lib = eng::v2::engine_library::load(dir);
+        r.ok = true;
+        r.loaded = schema_name(lib.schema());
+        r.version_name = lib.database().version_name();
+    }
+    catch (const std::exception& e)
+    {
+        int st = 0;
+        char* d = abi::__cxa_demangle(typeid(e).name(), nullptr, nullptr, &st);
+        r.ex_type = d ? d : typeid(e).name();
+        free(d);
+        r.what = e.what();
+    }
+    return r;
+}
+std::string listing(const std::string& dir)
+{
+    std::string out;
+    FILE* p = popen(("cd '" + dir + "' 2>/dev/null && find . | sort").c_str(), "r");
+    if (!p) return "?";
+    char buf[512];
+    while (fgets(buf, sizeof buf, p)) out += buf;
+    pclose(p);
+    return out;
+}
+
 int run(const Options& o)
 {
     Evidence ev(o, "model_checking");
@@ -107,14 +140,39 @@ int run(const Options& o)
                     else if (!want_type.empty() && r.ex_type.find(want_type) == std::string::npos) a.violation("layout|" + what + "|wrong_exception", what + ": threw " + r.ex_type + " (" + r.what + ") instead of " + want_type, "layout|" + what);
                     else a.count("validated");
                 };
+                // the same for engine_library::load / exists; a refused load must also leave the directory as it found it (a loader
+                // that lets SQLite create Database2/m.db turns the next load of a legacy library there into "both layouts")
+                auto expect_throw_v2 = [&](const std::string& what, const std::string& d) {
+                    a.count("evaluations");
+                    const std::string before = listing(d);
+                    auto r = try_load_v2(d);
+                    a.seen("cases", "v2 " + what);
+                    bool ex = true;
+                    try { ex = eng::v2::engine_library::exists(d); } catch (const std::exception&) { ex = false; }
+                    if (r.ok) a.violation("layout|v2 loader|" + what + "|accepted", "engine_library::load succeeded on " + what + " (reported " + r.loaded + ")", "layout|v2 " + what);
+                    else if (r.ex_type.find("database_not_found") == std::string::npos) a.violation("layout|v2 loader|" + what + "|wrong_exception", "engine_library::load on " + what + ": threw " + r.ex_type + " (" + r.what + ") instead of database_not_found", "layout|v2 " + what);
+                    else if (listing(d) != before) a.violation("layout|v2 loader|" + what + "|directory_changed", "engine_library::load on " + what + " was refused but changed the directory: before {" + before + "} after {" + listing(d) + "}", "layout|v2 " + what);
+                    else if (ex) a.violation("layout|v2 loader|" + what + "|exists_true", "engine_library::exists() is true for " + what, "layout|v2 " + what);
+                    else a.count("validated");
+                };
                 expect_throw("missing directory", dir + ".nope", "database_not_found");
+                expect_throw_v2("missing directory", dir + ".nope");
                 mkdir(dir.c_str(), 0700);
                 expect_throw("empty directory", dir, "database_not_found");
+                expect_throw_v2("empty directory", dir);
                 { World w(eng::engine_schema::schema_1_18_0_os, dir, 0); }
                 {
                     a.count("evaluations");
                     auto r = try_load(dir);
                     if (!r.ok || r.loaded != "1.18.0-os") a.violation("layout|legacy only|misdetected", "legacy-only directory: " + (r.ok ? r.loaded : r.ex_type), "layout|legacy only");
+                    else a.count("validated");
+                }
+                expect_throw_v2("legacy only", dir);
+                {
+                    // ... and the legacy library still loads afterwards
+                    a.count("evaluations");
+                    auto r = try_load(dir);
+                    if (!r.ok || r.loaded != "1.18.0-os") a.violation("layout|legacy only|misdetected_after_v2_loader", "legacy-only directory after a refused engine_library::load: " + (r.ok ? r.loaded : r.ex_type + ": " + r.what), "layout|legacy only after v2");
                     else a.count("validated");
                 }
                 std::string d2 = dir + ".b";
@@ -144,6 +202,23 @@ int run(const Options& o)
                 mkdir(d4.c_str(), 0700);
                 mkdir((d4 + "/Database2").c_str(), 0700);
                 expect_throw("empty Database2 directory", d4, "database_not_found");
+                expect_throw_v2("empty Database2 directory", d4);
+                expect_throw("empty Database2 directory (again)", d4, "database_not_found");
+                {
+                    // a legacy library next to an empty Database2 directory is a legacy library, before and after the 2.x loader looked
+                    std::string d7 = dir + ".g";
+                    { World w(eng::engine_schema::schema_1_17_0, d7, 0); }
+                    mkdir((d7 + "/Database2").c_str(), 0700);
+                    for (int round = 0; round < 2; ++round)
+                    {
+                        a.count("evaluations");
+                        auto r = try_load(d7);
+                        if (!r.ok || r.loaded != "1.17.0") a.violation("layout|legacy + empty Database2|misdetected", std::string("legacy library next to an empty Database2 directory") + (round ? " after a refused engine_library::load: " : ": ") + (r.ok ? r.loaded : r.ex_type + ": " + r.what), "layout|legacy + empty Database2");
+                        else a.count("validated");
+                        if (round == 0) expect_throw_v2("legacy + empty Database2 directory", d7);
+                    }
+                    if (system(("rm -rf '" + d7 + "'").c_str())) {}
+                }
                 // Information table missing / empty
                 std::string d5 = dir + ".e";
                 { World w(eng::engine_schema::schema_2_21_2, d5, 0); }
@@ -186,6 +261,27 @@ int run(const Options& o)
                     }
                     a.seen("cases", cid);
                     auto viol = [&](const std::string& inv, const std::string& what) { a.violation(b.name + "|" + inv, "[" + b.name + "] stored version " + val_sql(t.major) + "." + val_sql(mi) + "." + val_sql(pa) + ": " + what, cid); };
+                    if (cross) a.count(std::string("cross_layout.") + (r.ok ? "loaded" : "threw." + r.ex_type));
+                    if (b.database2)
+                    {
+                        // engine_library::load decides from the stored triple alone (it never looks at the layout): every supported
+                        // triple, of either generation, maps to its schema; (3,0,0) as above; everything else is unsupported_database
+                        a.count("evaluations");
+                        auto r2 = try_load_v2(dir);
+                        if (cross) a.count(std::string("cross_layout.v2_loader.") + (r2.ok ? "loaded" : "threw." + r2.ex_type));
+                        if (r2.ok)
+                        {
+                            if (want.empty()) viol("v2_loader|unsupported_version_accepted", "engine_library::load reports " + r2.loaded + " instead of rejecting with unsupported_database");
+                            else if (r2.loaded != want) viol("v2_loader|misidentified", "engine_library::load identifies it as " + r2.loaded + ", expected " + want);
+                            else a.count("validated");
+                        }
+                        else
+                        {
+                            if (!want.empty() && !three) viol("v2_loader|supported_version_rejected", "engine_library::load rejected it with " + r2.ex_type + ": " + r2.what);
+                            else if (r2.ex_type.find("unsupported_database") == std::string::npos) viol("v2_loader|wrong_exception", "engine_library::load rejected it with " + r2.ex_type + " (" + r2.what + ") instead of unsupported_database");
+                            else a.count("validated");
+                        }
+                    }
                     if (r.ok)
                     {
                         if (want.empty()) viol("unsupported_version_accepted", "loaded as " + r.loaded + " (version_name " + r.version_name + ") instead of being rejected with unsupported_database");
@@ -222,7 +318,10 @@ int run(const Options& o)
         "decision table: the 18 supported triples map to their schema (1.18.0 by variant); (3,0,0) may map to 3.0.0 or be rejected with unsupported_database; a supported triple in the other "
         "layout may throw any std::exception or be reported truthfully; every other triple must be rejected with unsupported_database; a successful load must report exactly the stored version "
         "(loaded_schema and version_name). Layout cases: missing directory, empty directory, legacy only, Database2 only, both layouts, p.db without m.db, empty Database2 directory "
-        "(database_not_found), empty and missing Information table (any std::exception). Non-trivial = triples that the table maps to a schema.";
+        "(database_not_found), empty and missing Information table (any std::exception). The second public loader, v2::engine_library::load (which opens Database2/m.db without probing the layout), is "
+        "given every triple on the Database2 library and must map each supported triple of either generation to its schema and reject the rest with unsupported_database; on a missing / empty / "
+        "legacy-only directory, an empty Database2 directory and a legacy library next to an empty Database2 directory it must throw database_not_found, engine_library::exists must be false, the "
+        "directory listing must be unchanged by the refused load and load_database must give the same answer afterwards as before. Non-trivial = triples that the table maps to a schema.";
     c["exhaustive"] = true;
     c["counters"] = total.counters_json();
     ev.sample(Json("legacy-os|1.18.1  (must be rejected with unsupported_database)"));
